@@ -138,8 +138,12 @@ func (g *Gen) title(multi bool) *string {
 	if multi && g.pick("titleml", 4) == 0 {
 		if g.R.PlainTitles {
 			t = strings.TrimRight(t, " ") + "\n" + g.word() + " " + g.word()
-		} else {
+		} else if g.pick("titleline2", 2) == 0 {
 			t = strings.TrimRight(t, " ") + "\n" + g.word() + " " + g.text()
+		} else {
+			// the later line may begin with anything, also with what would start a
+			// block if it were written bare (the serializer escapes it)
+			t = strings.TrimRight(t, " ") + "\n" + strings.TrimLeft(g.text(), " ")
 		}
 	}
 	t = strings.TrimSpace(t)
@@ -249,7 +253,10 @@ func (g *Gen) inlines(depth int, c ictx) []*Inline {
 			}
 			cc := c
 			cc.inLink = true
-			in = &Inline{K: Link, Kids: g.inlines(depth-1, cc), Dest: g.dest(), Title: g.title(c.multi && !(c.cont && g.R.NoMultiLineInContainer))}
+			// (the formatter writes a link's title anew, so a title over two lines
+			// is inside the canonical set in containers as well; an image is copied
+			// from the source)
+			in = &Inline{K: Link, Kids: g.inlines(depth-1, cc), Dest: g.dest(), Title: g.title(c.multi)}
 			if len(g.Labels) > 0 && g.pick("ref?", 2) == 0 {
 				g.makeRef(in)
 			}
